@@ -276,4 +276,32 @@ def processEvent (idx : List Side) (e : Event) (fromWalk : Bool) : Verdict :=
   | none => .dropped
   | some o => if walkNoop idx e o fromWalk then .walkNoop else .update (fillPath idx e o)
 
+/-! ### tombstones and the missing-parent recovery (manager.py `handle_cloud_file_not_found_error`, first decision)
+
+A discarded entry (the tombstone of a deleted and synced object) stays indexed under its path: `lookup_path(…, stale=True)`
+returns it, the live lookup (`stale=False`, the default) filters it out (state.py `lookup_path`). -/
+
+/-- `state.lookup_path(side, path, stale)` -/
+def lookupPathS (idx : List Side) (p : Path) (stale : Bool) : List Side :=
+  idx.filter (fun s => s.path == some p && (stale || (!s.ign.isDiscarded && !s.ign.isConflicted)))
+
+/-- an entry a live lookup may return -/
+def Side.live (s : Side) : Bool := !s.ign.isDiscarded && !s.ign.isConflicted
+
+/-- what the handler does first -/
+inductive FnfStep where
+  | tooManyRetries            -- `sync.priority > 5`: CloudTooManyRetriesError (the child is marked finished by `sync`)
+  | injectParent              -- no entry for the parent path, the provider has the folder: `state.update(changed, DIRECTORY, info.oid, path=parent)`
+  | noInfo                    -- no entry, no folder: "no info and no dir, ignoring"
+  | useEntry (parent : Side)  -- the first entry found is taken for the parent (punt / re-mark it)
+  deriving DecidableEq, Repr
+
+/-- manager.py 811-827 with the lookup mode as a parameter; the code is `fnfParent false` -/
+def fnfParent (stale : Bool) (idx : List Side) (parent : Path) (priority : Nat) (providerHasParent : Bool) : FnfStep :=
+  if priority > 5 then .tooManyRetries else
+  match lookupPathS idx parent stale with
+  | [] => if providerHasParent then .injectParent else .noInfo
+  | k :: _ => .useEntry k
+
 end CS.Hints
+
